@@ -2,6 +2,7 @@ package gen
 
 import (
 	"fmt"
+	"strings"
 
 	"pgregory.net/rapid"
 
@@ -226,6 +227,8 @@ func (g *G) stmt(bd int) []hs.Stmt {
 		g.usesTrig = true
 		g.feat("trigger")
 		return []hs.Stmt{hs.TriggerStmt{Callback: "on_minute", Conn: "at", Trigger: "minute", Args: []hs.Expr{g.expr(hs.TInt, d)}}}
+	case r < 98 && g.c.HostFns && g.c.Wild && g.c.Strings && g.chance("anyFlow", 50):
+		return g.anyFlow()
 	case r < 99 && g.c.HostFns:
 		names := []string{"host_int", "host_str", "host_list", "host_opt", "host_bool", "host_float"}
 		ts := []hs.Type{hs.TInt, hs.TStr, hs.TList(hs.TInt), hs.TOpt(hs.TInt), hs.TBool, hs.TFloat}
@@ -238,6 +241,56 @@ func (g *G) stmt(bd int) []hs.Stmt {
 		return []hs.Stmt{hs.ExprStmt{X: hs.Call{Fn: hs.Ident{Name: names[i]}, Args: []hs.Expr{g.expr(ts[i], d)}, T: hs.TNull}}}
 	}
 	return []hs.Stmt{g.println(d)}
+}
+
+// anyFlow (wild programs only; the reference evaluator cannot run it): a dynamically typed value - parsed JSON, a
+// member of an any-object, an element popped from a [any] - enters a typed variable through an annotated let or
+// a cast and is handed to a typed host function. Conforming documents must arrive with the declared dynamic
+// type, the others must end in a cast error; neither may reach the host function with a wrong dynamic type.
+func (g *G) anyFlow() []hs.Stmt {
+	type row struct {
+		t, host string
+		docs    []string
+	}
+	rows := []row{
+		{"int", "host_int", []string{"1", `"s"`, "1.5", "true", "null", "[1]", "9007199254740993"}},
+		{"str", "host_str", []string{`"s"`, "1", "null", `["s"]`}},
+		{"float", "host_float", []string{"1.5", "2", `"s"`, "null"}},
+		{"bool", "host_bool", []string{"true", "0", `"s"`}},
+		{"[int]", "host_list", []string{"[1, 2]", `[1, "s"]`, "[1.5]", "[]", "{}", "[[1]]", "[1, null]", "[true]"}},
+		{"?int", "host_opt", []string{"1", "null", `"s"`, "[1]", "2.5", "true"}},
+	}
+	r := rows[g.pick("anyFlowRow", len(rows))]
+	doc := r.docs[g.pick("anyFlowDoc", len(r.docs))]
+	form := g.pick("anyFlowForm", 4)
+	if doc == "null" && g.c.off("null-value") && !(r.t == "?int" && (form == 2 || form == 3)) {
+		// open finding C18-013 / C12-007: the VM does not push a builtin result that is the null value
+		// (`"null".parse_json()`, `get("k").unwrap()` of a JSON null); as an option member it is fine
+		doc = r.docs[0]
+	}
+	q := func(s string) string { return strings.ReplaceAll(s, `"`, `\"`) }
+	n := g.fresh("aj")
+	var src string
+	switch {
+	case form == 0:
+		src = fmt.Sprintf("let %s: %s = \"%s\".parse_json(); %s(%s);", n, r.t, q(doc), r.host, n)
+	case form == 1:
+		src = fmt.Sprintf("let %s = \"%s\".parse_json() as %s; %s(%s);", n, q(doc), r.t, r.host, n)
+	case form == 2 && r.t == "?int":
+		src = fmt.Sprintf("let %sh: { ? } = \"{\\\"k\\\": %s}\".parse_json(); let %s: ?int = %sh->k; host_opt(%s);", n, q(doc), n, n, n)
+	case form == 3 && r.t == "?int":
+		src = fmt.Sprintf("let %sl: [any] = \"[%s]\".parse_json(); let %s: ?int = %sl.pop(); host_opt(%s);", n, q(doc), n, n, n)
+	default:
+		src = fmt.Sprintf("let %sh: { ? } = \"{\\\"k\\\": %s}\".parse_json(); let %s: %s = %sh.get(\"k\").unwrap(); %s(%s);", n, q(doc), n, r.t, n, r.host, n)
+	}
+	if g.chance("anyFlowTry", 60) {
+		src = "try { " + src + " } catch " + g.fresh("e") + " { println(\"any-flow refused\"); }"
+	} else {
+		src = "{ " + src + " }"
+	}
+	g.usesHost[r.host] = true
+	g.feat("any-flow")
+	return []hs.Stmt{hs.RawStmt{Src: src}}
 }
 
 // breakingLoop: a `for` or `while` loop that contains a (guarded) break.
@@ -542,6 +595,16 @@ func (g *G) optOfPlace(d int) ([]hs.Stmt, bool) {
 	}
 	g.declare(varInfo{name: name, t: ot})
 	g.feat("opt-of-place")
+	// (checks that cannot run the reference model exclude the triggers of the open aliasing findings by these
+	// syntactic features)
+	if _, isIdx := pl.x.(hs.Index); isIdx {
+		g.feat("assign-elem")
+	} else {
+		g.feat("assign-field")
+	}
+	if g.inExpr > 0 {
+		g.feat("assign-in-expr")
+	}
 	return st, true
 }
 
